@@ -136,4 +136,11 @@ CHECKS = {
         "level_note": "byte values outside the catalogue are not covered; ECDSA/EdDSA adapters and the connection handshake are covered by C19/C16's catalogues",
         "budget_s": {"quick": 170, "thorough": 900},
     },
+    "C16": {
+        "pkg": "checks/c16", "level": "exploration", "engine": "E4 bounded-exhaustive",
+        "technique": "exhaustive enumeration of handshake alterations / substitutions / replays / truncations against the real net.ServiceConnections over in-memory TLS 1.3 in a synctest bubble, each interleaved with an honest connection",
+        "level_text": "a message is attributed only to the identity whose key signed this connection's binding, under the domain it is registered for; every other handshake of the catalogue yields no attributed message and no panic; the concurrent honest connection is unaffected",
+        "level_note": "crypto/tls and crypto/x509 are trusted; byte flips cover every position of binding and signature and 16 positions of the identity; kernel TCP is replaced by an in-memory stream",
+        "budget_s": {"quick": 170, "thorough": 900},
+    },
 }
